@@ -177,7 +177,9 @@ func main() {
 				runControls(ctl, r, p.Controls)
 			}
 		}()
-		if e := r.Finish(p.Meta, *tier, seed, kf, *out, t0, strings.Join(os.Args, " ")); e != 0 {
+		meta := p.Meta
+		meta.Explanation += " Rules added after the held-out validation rounds (DESIGN.md §10, §11) and rules of other properties evaluated under this one (named <Cyy>:<RULE>) appear by name, with the construct examined and the condition applied, among the obligations."
+		if e := r.Finish(meta, *tier, seed, kf, *out, t0, strings.Join(os.Args, " ")); e != 0 {
 			exit = 1
 		}
 	}
